@@ -7,6 +7,9 @@
 //   rw explore <iterations> <threads> <ops> <seed> <preferWriters 0|1|2=both> <report.ndjson> [tracefile [ntraces]]
 //        seeded random programs under seeded random schedules (every hooked operation is a pre-emption point),
 //        same monitor, deadlock detector; optionally records event traces for validation by TLC (RWTrace.tla).
+//   rw free <iterations> <threads> <ops> <seed> <report.ndjson>
+//        real threads without the scheduler (real blocking, real memory ordering, timing noise at the hooks); exclusion is
+//        checked by the holders themselves, progress by a watchdog.
 #ifndef VERIF_NO_PRIVATE
 # define private public      // the harness needs the addresses of _stateMutex and of the pool's mutex (stop points); no layout change
 #endif
@@ -319,9 +322,110 @@ static int Explore(uint32 iters, int nt, int nops, uint32 seed0, int preferSel, 
    return 0;
 }
 
+// ------------------------------------------------------------------------------------------------------
+// free-running mode: real threads, no scheduler (real blocking in the real WaitCondition, real memory ordering); the hooks only
+// inject timing noise.  Oracle = the property itself, evaluated by the threads while they hold the lock: a thread that holds WRITE
+// sees no other holder, a thread that holds READ sees no writer; a failed try/timed call changes nothing; everybody finishes.
+#include <atomic>
+#include <chrono>
+static std::atomic<int> f_readers(0), f_writer(-1), f_done(0); static std::atomic<long> f_progress(0);
+static std::atomic<int> f_nviol(0); static std::mutex f_vm; static std::vector<std::string> f_viol;
+static void FV(const char * s) {f_nviol++; std::lock_guard<std::mutex> g(f_vm); if (f_viol.size() < 10) f_viol.push_back(s);}
+static thread_local uint32_t f_rng = 1;
+static inline uint32_t FR() {f_rng ^= f_rng << 13; f_rng ^= f_rng >> 17; f_rng ^= f_rng << 5; return f_rng;}
+static int NoiseYield(int, const void *, long) {const uint32_t r = FR()%16; if (r == 0) std::this_thread::yield(); else if (r == 1) {for (volatile int i=0; i<200; i++) {}} return 0;}
+struct FreeArg {int id; int nops; uint32_t seed; bool prefer;};
+static void FreeMain(FreeArg a)
+{
+   f_rng = a.seed*2654435761u + 12345u + (uint32_t) a.id*977u; if (f_rng == 0) f_rng = 1;
+   int ro = 0, rw = 0; char b[200];
+   for (int k=0; k<a.nops; k++) {
+      int op = (int)(FR()%8);
+      if ((op == OP_UR)&&(ro == 0)) op = OP_LR;
+      if ((op == OP_UW)&&(rw == 0)) op = OP_LW;
+      if ((ro+rw >= 6)&&(op <= OP_LWTIMED)) op = (rw > 0) ? OP_UW : OP_UR;
+      const bool upgrade = (op >= OP_LW)&&(op <= OP_LWTIMED)&&(rw == 0)&&(ro > 0);
+      if (upgrade) f_readers -= ro;          // an upgrade may give up the read holds for a while: do not count them during the call
+      if (op == OP_UR) { if (rw == 0) { const int w = f_writer.load(); if (w >= 0) {snprintf(b, sizeof(b), "T%d holds READ while T%d holds WRITE", a.id+1, w+1); FV(b);} } f_readers--; }
+      if ((op == OP_UW)&&(rw == 1)) {
+         const int w = f_writer.load(); const int r = f_readers.load();
+         if (w != a.id) {snprintf(b, sizeof(b), "T%d holds WRITE but the writer on record is T%d", a.id+1, w+1); FV(b);}
+         if (r != ro) {snprintf(b, sizeof(b), "T%d holds WRITE while %d read holds of other threads exist", a.id+1, r-ro); FV(b);}
+         f_writer = -1;
+      }
+      status_t r;
+      const uint64 dl = GetRunTime64() + (FR()%300);
+      switch(op) {
+         case OP_LR:      r = g_m->LockReadOnly(); break;
+         case OP_LRTRY:   r = g_m->TryLockReadOnly(); break;
+         case OP_LRTIMED: r = g_m->LockReadOnly(dl); break;
+         case OP_LW:      r = g_m->LockReadWrite(); break;
+         case OP_LWTRY:   r = g_m->TryLockReadWrite(); break;
+         case OP_LWTIMED: r = g_m->LockReadWrite(dl); break;
+         case OP_UR:      r = g_m->UnlockReadOnly(); break;
+         case OP_UW:      r = g_m->UnlockReadWrite(); break; }
+      const bool ok = r.IsOK();
+      if (upgrade) f_readers += ro;
+      if (op <= OP_LRTIMED) {
+         if (ok) { ro++; f_readers++; if (rw == 0) { const int w = f_writer.load(); if (w >= 0) {snprintf(b, sizeof(b), "T%d acquired READ while T%d holds WRITE", a.id+1, w+1); FV(b);} } }
+         else if (op == OP_LR) {snprintf(b, sizeof(b), "T%d: untimed LockReadOnly failed", a.id+1); FV(b);}
+      }
+      else if (op <= OP_LWTIMED) {
+         if (ok) {
+            if (rw == 0) { int exp = -1; if (!f_writer.compare_exchange_strong(exp, a.id)) {snprintf(b, sizeof(b), "T%d acquired WRITE while T%d holds WRITE", a.id+1, exp+1); FV(b);}
+                           const int rr = f_readers.load(); if (rr != ro) {snprintf(b, sizeof(b), "T%d acquired WRITE while %d read holds of other threads exist", a.id+1, rr-ro); FV(b);} }
+            rw++;
+         }
+         else if (op == OP_LW) {snprintf(b, sizeof(b), "T%d: untimed LockReadWrite failed", a.id+1); FV(b);}
+      }
+      else if (op == OP_UR) { if (ok) ro--; else {f_readers++; snprintf(b, sizeof(b), "T%d: UnlockReadOnly failed although it holds %d read locks", a.id+1, ro); FV(b);} }
+      else { if (ok) rw--; else {snprintf(b, sizeof(b), "T%d: UnlockReadWrite failed although it holds %d write locks", a.id+1, rw); FV(b);} }
+      if ((rw > 0)||(ro > 0)) { const uint32_t w = FR()%8; if (w == 0) std::this_thread::yield(); else if (w < 3) {for (volatile int i=0; i<300; i++) {}} }
+      f_progress++;
+      if (f_nviol.load() > 20) break;
+   }
+   while (rw > 0) { if (rw == 1) f_writer = -1; if (g_m->UnlockReadWrite().IsOK()) rw--; else {FV("final UnlockReadWrite failed"); break;} }
+   while (ro > 0) { f_readers--; if (g_m->UnlockReadOnly().IsOK()) ro--; else {FV("final UnlockReadOnly failed"); break;} }
+   f_done++;
+}
+static int Free(uint32 iters, int nt, int nops, uint32 seed0, const char * outFile)
+{
+   FILE * out = fopen(outFile, "w"); if (!out) return 2;
+   muscle::verif::YieldFuncRef() = NoiseYield;
+   long execs = 0, violated = 0, hung = 0, ops = 0;
+   for (uint32 it=0; (it<iters)&&(violated < 20)&&(hung == 0); it++) {
+      const bool prefer = (it%2) == 1;
+      ReaderWriterMutex * m = new ReaderWriterMutex(prefer); g_m = m;
+      f_readers = 0; f_writer = -1; f_done = 0; f_nviol = 0; f_viol.clear(); f_progress = 0;
+      std::vector<std::thread> ths;
+      for (int t=0; t<nt; t++) {FreeArg a; a.id = t; a.nops = nops; a.seed = seed0*1000003u + it*31u; a.prefer = prefer; ths.emplace_back(FreeMain, a);}
+      // watchdog: every compliant thread releases what it holds, so everybody must finish; 40 s without any progress = stranded
+      long last = -1; int idle = 0;
+      while (f_done.load() < nt) { std::this_thread::sleep_for(std::chrono::milliseconds(5)); const long p = f_progress.load(); if (p != last) {last = p; idle = 0;} else if (++idle > 8000) break; }
+      execs++; ops += f_progress.load();
+      const bool stuck = (f_done.load() < nt);
+      if (stuck) { hung++; char b[200]; snprintf(b, sizeof(b), "STRANDED (free-running): %d of %d threads did not finish although every thread releases what it holds; no progress for 40 s", nt-f_done.load(), nt); FV(b); }
+      if (f_nviol.load() > 0) {
+         violated++;
+         mj::Value rec = mj::Value::Obj(); rec.set("free", mj::Value::Bool(true)).set("iteration", mj::Value::Int(it)).set("prefer", mj::Value::Bool(prefer)).set("threads", mj::Value::Int(nt)).set("seed", mj::Value::Int(seed0));
+         mj::Value va = mj::Value::Arr(); {std::lock_guard<std::mutex> g(f_vm); for (size_t k=0; k<f_viol.size(); k++) va.push(mj::Value::Str(f_viol[k]));} rec.set("violations", va);
+         fprintf(out, "%s\n", mj::ToString(rec).c_str());
+      }
+      if (stuck) { for (size_t k=0; k<ths.size(); k++) ths[k].detach(); }
+      else { for (size_t k=0; k<ths.size(); k++) ths[k].join(); delete m; }
+   }
+   mj::Value sum = mj::Value::Obj();
+   sum.set("summary", mj::Value::Bool(true)).set("executions", mj::Value::Int(execs)).set("violated", mj::Value::Int(violated)).set("stranded", mj::Value::Int(hung)).set("operations", mj::Value::Int(ops)).set("threads", mj::Value::Int(nt));
+   fprintf(out, "%s\n", mj::ToString(sum).c_str()); fclose(out);
+   printf("%s\n", mj::ToString(sum).c_str()); fflush(stdout);
+   if (hung) _exit(0);
+   return 0;
+}
+
 int main(int argc, char ** argv)
 {
    CompleteSetupSystem css;
+   if ((argc >= 7)&&(!strcmp(argv[1], "free"))) return Free((uint32) atol(argv[2]), atoi(argv[3]), atoi(argv[4]), (uint32) atol(argv[5]), argv[6]);
    vs::Install();
    if ((argc >= 5)&&(!strcmp(argv[1], "replay"))) return Replay(argv[2], atoi(argv[3]) != 0, argv[4]);
    if ((argc >= 8)&&(!strcmp(argv[1], "explore"))) return Explore((uint32) atol(argv[2]), atoi(argv[3]), atoi(argv[4]), (uint32) atol(argv[5]), atoi(argv[6]), argv[7], (argc > 8) ? argv[8] : NULL, (argc > 9) ? (uint32) atol(argv[9]) : 50);
